@@ -769,9 +769,36 @@ package vegeta
 //@         && parseuint(fmtint(bout, 10), 10) == bout && parseuint(fmtint(bin, 10), 10) == bin && parseuint(fmtint(seq, 10), 10) == seq && b64dec(b64(body)) == body
 
 //@ func (jsonResult).MarshalEasyJSON
-//@   trusted
-//@   requires w != nil
-//@   modifies *w
+//@   inline
+
+// Generated JSON encoder for results: exactly the twelve documented keys, in order, each followed by
+// the field of the same name (latency as integer nanoseconds, timestamp via Time.MarshalJSON = RFC 3339,
+// body via Base64Bytes).
+//@ func easyjsonBd1621b8EncodeGithubComTsenartVegetaV12Lib
+//@   property C07
+//@   requires [non-nil] out != nil
+//@   modifies *out
+//@   ghost nkeys int
+//@   ghost lastKey string
+//@   before call RawString: assert [documented-keys-in-order]
+//@          (nkeys == 0 ==> arg1 == "\"attack\":") && (nkeys == 1 ==> arg1 == ",\"seq\":") && (nkeys == 2 ==> arg1 == ",\"code\":") && (nkeys == 3 ==> arg1 == ",\"timestamp\":")
+//@          && (nkeys == 4 ==> arg1 == ",\"latency\":") && (nkeys == 5 ==> arg1 == ",\"bytes_out\":") && (nkeys == 6 ==> arg1 == ",\"bytes_in\":") && (nkeys == 7 ==> arg1 == ",\"error\":")
+//@          && (nkeys == 8 ==> arg1 == ",\"body\":") && (nkeys == 9 ==> arg1 == ",\"method\":") && (nkeys == 10 ==> arg1 == ",\"url\":") && (nkeys == 11 ==> arg1 == ",\"headers\":") ;
+//@        ghost lastKey = arg1 ; ghost nkeys = nkeys + 1
+//@   before call String: assert [string-fields] (nkeys == 1 ==> arg1 == in.Attack) && (nkeys == 8 ==> arg1 == in.Error) && (nkeys == 10 ==> arg1 == in.Method) && (nkeys == 11 ==> arg1 == in.URL)
+//@          && nkeys != 2 && nkeys != 3 && nkeys != 4 && nkeys != 5 && nkeys != 6 && nkeys != 7 && nkeys != 9
+//@   before call Uint64: assert [uint64-fields] (nkeys == 2 ==> arg1 == in.Seq) && (nkeys == 6 ==> arg1 == in.BytesOut) && (nkeys == 7 ==> arg1 == in.BytesIn) && (nkeys == 2 || nkeys == 6 || nkeys == 7)
+//@   before call Uint16: assert [code] nkeys == 3 && arg1 == in.Code
+//@   before call MarshalJSON: assert [timestamp-rfc3339] nkeys == 4 && arg0 == in.Timestamp
+//@   before call Raw: assert [timestamp-raw-json] nkeys == 4 && (arg2 == nil ==> string(arg1) == rfc3339json(in.Timestamp))
+//@   before call Int64: assert [latency-integer-nanoseconds] nkeys == 5 && arg1 == in.Latency
+//@   before call Base64Bytes: assert [body-base64] nkeys == 9 && arg1 == in.Body
+//@   ensures [all-twelve-keys] nkeys >= 12
+//@   loop 1
+//@     invariant nkeys >= 12 && out == old(out)
+//@   loop 2
+//@     invariant nkeys >= 12 && out == old(out) && -1 <= rangeindex && rangeindex < len(v6Value)
+//@     decreases len(v6Value) - rangeindex
 //@ func (*jsonResult).UnmarshalEasyJSON
 //@   inline
 
